@@ -58,8 +58,10 @@ def s09_pass_through(ctx):
         if gb is None:
             raise Broken('no body for wrapper %s' % wp)
         n_w += 1
-        W = Body(gb)
-        bodies = [W] + closures.get(wp, [])
+        import inline as _inline
+        W = Body(_inline.inlined(f, gb, 3))         # a wrapper may hand its work to a private helper: the helper's body is the wrapper's
+        helper_defs = sorted({blk.get('inlined_from') for blk in W.blocks if blk.get('inlined_from')})
+        bodies = [W] + closures.get(wp, []) + [cb_ for hd in helper_defs for cb_ in closures.get(hd, [])]
         key = '%s::%s' % (tshort, name)
         r.inst(key)
         next_sites = []
